@@ -496,6 +496,12 @@ PROGS = [
     ("def f(a, b = a * 2, c = b + 1) [a, b, c]; [f(1), f(1, 5), f(1, c = 0), f(b = 3, a = 2)]", "[[1, 2, 3], [1, 5, 6], [1, 2, 0], [2, 3, 4]]"),
     ("def f(a, rest...) [a, rest...]; [f(1), f(1, 2, 3)]", "[[1, []], [1, [2, 3]]]"),
     ("def f(a, b, c) [a, b, c]; [f(...[1, 2, 3]), f(1, ...[2, 3]), f(...<<<'c' => 3, 'a' => 1, 'b' => 2>>>)]", "[[1, 2, 3], [1, 2, 3], [1, 2, 3]]"),
+    # named arguments first, positional ones fill the remaining parameters in order, surplus positionals go to the rest parameter
+    ("def f(a, b = 5) [a, b]; f(1, a = 2)", "[2, 1]"),
+    ("def g(a, b, r...) [a, b, r...]; g(1, 2, 3, a = 9)", "[9, 1, [2, 3]]"),
+    ("def k(a, b, c = 0) [a, b, c]; 10 !> k(20, a = 1)", "[1, 10, 20]"),
+    ("def h(a, b, c) [a, b, c]; [h(1, 2, b = 9), h(1, c = 7, b = 8), do h(c = 3, 1, 2) catch all 'positional after named' end]", "[[1, 9, 2], [1, 8, 7], 'positional after named']"),
+    ("def h(a, b, c) [a, b, c]; h(1, 2, ...<<<'a' => 0>>>)", "[0, 1, 2]"),
     ("def f(x, a) [x, a]; 1 !> f(2)", "[1, 2]"), ("def f(x, a = 9) [x, a]; [1 !> f(), 1 !> f(a = 3)]", "[[1, 9], [1, 3]]"),
     ("def o = <*v = 3, m = fn(self, k) self->v * k*>; o->m(2)", "6"),
     ("def base = <*m = fn(self) self->tag*>; def o = <*_proto_ = base, tag = 'child'*>; o->m()", "'child'"),
